@@ -1,2 +1,210 @@
-(** Property C06 — placeholder until the reader-level safety proof lands *)
-From MP4 Require Import Hoare.
+(** * Property C06 — the reader API never panics, whatever the input
+
+    "For any byte string handed to the reader with its true length — well-formed, malformed,
+    truncated or adversarial — opening it, opening it as a fragment against an already opened
+    file, and then calling every accessor (movie and track durations and metadata, sample
+    counts, sample offsets, reading any sample id from 0 to beyond the count) returns a value or
+    an error. The process never panics, in builds with and without arithmetic-overflow
+    checking."
+
+    Statements only; proofs in [Proofs/SafeLoop.v] (the child-box loop), [Proofs/SafeLeaf*.v]
+    (leaf decoders), [Proofs/SafeValues.v], [Proofs/SafeContainers*.v] (containers),
+    [Proofs/SafeLookup.v] (sample lookups), [Proofs/SafeReader.v].
+
+    Reading the statements:
+    - [run c s] interprets the model [c] of a library call on the stream [s]; [stream_at data p]
+      is a cursor over [data] at position [p]; the result is [Ok _], [Err _], [Panic _] or
+      [OutOfFuel] (model-only: the fuel of the child-box loops ran out; termination is
+      property C07).  [is_panic r = false] says the call did not panic.
+    - [m : mode] is the build mode: [Dbg] panics on arithmetic overflow, [Rel] wraps.  Every
+      statement is for all [m].
+    - [bytes_ok data = true] says the list elements are bytes (below 256); [lenN data < 2^62] is
+      the only restriction on the input: the model positions are unbounded integers while Rust
+      computes [start + size] in [u64].  The size argument of [read_header] is the true length.
+    - sample ids are [u32]: [sid < U32].
+    - the accessors that return plain values (durations, timescales, brands, width, height,
+      language, sample count, metadata strings ..) are total functions in the model; they are
+      listed in [Proofs/SafeReader.v] and have no panic outcome to exclude. *)
+From MP4 Require Import Reader SafeLookup SafeReader.
+Open Scope list_scope.
+Open Scope N_scope.
+
+(** every call on a reader value *)
+Theorem calls_safe_def : forall r : mp4reader,
+  calls_safe r <->
+  (forall m data pos tid sid, sid < U32 ->
+     is_panic (fst (run (rd_read_sample m r tid sid) (stream_at data pos))) = false
+     /\ is_panic (rd_sample_offset m r tid sid) = false
+     /\ is_panic (rd_sample_count r tid) = false)
+  /\ (forall tid t, tracks_get tid (rd_tracks r) = Some t ->
+     is_panic (mt_track_type t) = false /\ is_panic (mt_media_type t) = false
+     /\ is_panic (mt_box_type t) = false /\ is_panic (mt_video_profile t) = false
+     /\ is_panic (mt_sequence_parameter_set t) = false /\ is_panic (mt_picture_parameter_set t) = false
+     /\ is_panic (mt_audio_profile t) = false /\ is_panic (mt_sample_freq_index t) = false
+     /\ is_panic (mt_channel_config t) = false).
+Proof. intros; reflexivity. Qed.
+
+(** ** The property *)
+Theorem C06_statement_def :
+  C06_statement <->
+  (forall fuel m data, bytes_ok data = true -> lenN data < 2 ^ 62 ->
+     is_panic (fst (run (open_fuel fuel m (lenN data)) (stream_at data 0))) = false)
+  /\ (forall fuel m r data2, bytes_ok data2 = true -> lenN data2 < 2 ^ 62 ->
+     is_panic (fst (run (open_fragment_fuel fuel m r (lenN data2)) (stream_at data2 0))) = false)
+  /\ (forall fuel m data r, bytes_ok data = true -> lenN data < 2 ^ 62 ->
+     fst (run (open_fuel fuel m (lenN data)) (stream_at data 0)) = Ok r -> calls_safe r)
+  /\ (forall fuel m data r fuel2 m2 data2 r2,
+     bytes_ok data = true -> lenN data < 2 ^ 62 ->
+     fst (run (open_fuel fuel m (lenN data)) (stream_at data 0)) = Ok r ->
+     bytes_ok data2 = true -> lenN data2 < 2 ^ 62 ->
+     fst (run (open_fragment_fuel fuel2 m2 r (lenN data2)) (stream_at data2 0)) = Ok r2 ->
+     calls_safe r2).
+Proof. reflexivity. Qed.
+
+Theorem C06 : C06_statement.
+Proof. exact C06_lemma. Qed.
+Print Assumptions C06.
+
+(** ** The parts, for reference *)
+Theorem C06_open : forall fuel m data, bytes_ok data = true -> lenN data < 2 ^ 62 ->
+  is_panic (fst (run (open_fuel fuel m (lenN data)) (stream_at data 0))) = false.
+Proof. exact open_never_panics. Qed.
+Print Assumptions C06_open.
+
+Theorem C06_open_fragment : forall fuel m r data2, bytes_ok data2 = true -> lenN data2 < 2 ^ 62 ->
+  is_panic (fst (run (open_fragment_fuel fuel m r (lenN data2)) (stream_at data2 0))) = false.
+Proof. exact open_fragment_never_panics. Qed.
+Print Assumptions C06_open_fragment.
+
+(** the sample calls on any reader value satisfying [reader_ok] (integer widths of five fields,
+    the first stsc [first_sample] is at least 1, one trun duration per sample when the flag is set) *)
+Theorem C06_calls : forall m r data pos tid sid, reader_ok r -> sid < U32 ->
+  is_panic (fst (run (rd_read_sample m r tid sid) (stream_at data pos))) = false
+  /\ is_panic (rd_sample_offset m r tid sid) = false
+  /\ is_panic (rd_sample_count r tid) = false.
+Proof. exact calls_never_panic. Qed.
+Print Assumptions C06_calls.
+
+(** [reader_ok] is an invariant of the two entry points *)
+Theorem C06_open_reader_ok : forall fuel m data r, bytes_ok data = true -> lenN data < 2 ^ 62 ->
+  fst (run (open_fuel fuel m (lenN data)) (stream_at data 0)) = Ok r -> reader_ok r.
+Proof. exact open_returns_ok_reader. Qed.
+Print Assumptions C06_open_reader_ok.
+
+Theorem C06_open_fragment_reader_ok : forall fuel m r data2 r2,
+  bytes_ok data2 = true -> lenN data2 < 2 ^ 62 -> reader_ok r ->
+  fst (run (open_fragment_fuel fuel m r (lenN data2)) (stream_at data2 0)) = Ok r2 -> reader_ok r2.
+Proof. exact open_fragment_returns_ok_reader. Qed.
+Print Assumptions C06_open_fragment_reader_ok.
+
+(** the [Result]-valued track accessors, on ANY track value *)
+Theorem C06_accessors : forall t : mp4track,
+  is_panic (mt_track_type t) = false /\ is_panic (mt_media_type t) = false
+  /\ is_panic (mt_box_type t) = false /\ is_panic (mt_video_profile t) = false
+  /\ is_panic (mt_sequence_parameter_set t) = false /\ is_panic (mt_picture_parameter_set t) = false
+  /\ is_panic (mt_audio_profile t) = false /\ is_panic (mt_sample_freq_index t) = false
+  /\ is_panic (mt_channel_config t) = false.
+Proof. exact accessors_never_panic. Qed.
+Print Assumptions C06_accessors.
+
+(** ** Non-vacuity *)
+
+(** the hypotheses hold for real files, and opening can succeed *)
+Example C06_nonvacuous_wellformed :
+  bytes_ok reader_test_file = true /\ lenN reader_test_file < 2 ^ 62
+  /\ is_ok (fst (run (open_fuel 2000 Dbg (lenN reader_test_file)) (stream_at reader_test_file 0))) = true
+  /\ is_ok (fst (run (open_fuel 2000 Rel (lenN reader_test_file)) (stream_at reader_test_file 0))) = true.
+Proof. vm_compute. repeat split; reflexivity. Qed.
+
+(** a truncated file, and a file with every zero byte replaced by 255: an error, no panic *)
+Example C06_nonvacuous_truncated :
+  let d := firstn 300 reader_test_file in
+  bytes_ok d = true
+  /\ class_of (fst (run (open_fuel 2000 Dbg (lenN d)) (stream_at d 0))) = CData.
+Proof. vm_compute. split; reflexivity. Qed.
+
+Example C06_nonvacuous_corrupted :
+  let d := map (fun b => if b =? 0 then 255 else b) reader_test_file in
+  bytes_ok d = true
+  /\ class_of (fst (run (open_fuel 2000 Dbg (lenN d)) (stream_at d 0))) = CData.
+Proof. vm_compute. split; reflexivity. Qed.
+
+(** an adversarial file that opens: every 32-bit field of the sample tables at its maximum, a
+    zero samples-per-chunk entry, an empty chunk-offset table.  The sample calls return values
+    or errors for sample ids 0, 1, 2, 7 and 2^32 - 1 *)
+Definition C06_adversarial_stbl (stco : list N) : stbl :=
+  mkStbl (mkStsd 0 0 (Some avc1_test) None None None None)
+         (mkStts 0 0 [mkSttsEntry 4294967294 4294967295])
+         None None
+         (mkStsc 0 0 [mkStscEnt 1 4294967295 1 1])
+         (mkStsz 0 0 4294967295 4294967295 [])
+         (Some (mkStco 0 0 stco))
+         None.
+Definition C06_adversarial_file (stco : list N) : bytes :=
+  wout (enc_ftyp ftyp_default)
+  ++ wout (enc_moov Dbg (mkMoov mvhd_default None None
+        [mkTrak (trak_tkhd trak_test) None None
+                (mkMdia mdhd_default (mdia_hdlr mdia_test)
+                        (mkMinf None None dinf_default (C06_adversarial_stbl stco)))] None)).
+
+Example C06_nonvacuous_adversarial :
+  let d := C06_adversarial_file [4294967295] in
+  match fst (run (open_fuel 2000 Dbg (lenN d)) (stream_at d 0)) with
+  | Ok r =>
+      rd_sample_count r 1 = Ok 4294967295
+      /\ rd_sample_offset Dbg r 1 0 = Err EData
+      /\ rd_sample_offset Dbg r 1 1 = Ok 4294967295
+      /\ rd_sample_offset Dbg r 1 4294967295 = Ok (4294967295 + 4294967294 * 4294967295)
+      /\ map (fun sid => class_of (fst (run (rd_read_sample Dbg r 1 sid) (stream_at d 0))))
+             [0; 1; 2; 7; 4294967295] = [CData; CIo; CIo; CIo; CIo]
+  | _ => False
+  end.
+Proof. vm_compute. repeat split; reflexivity. Qed.
+
+Example C06_nonvacuous_adversarial_empty_stco :
+  let d := C06_adversarial_file [] in
+  match fst (run (open_fuel 2000 Rel (lenN d)) (stream_at d 0)) with
+  | Ok r =>
+      map (fun sid => fst (run (rd_read_sample Rel r 1 sid) (stream_at d 0)))
+          [1; 4294967295] = [Ok None; Ok None]
+  | _ => False
+  end.
+Proof. vm_compute. repeat split; reflexivity. Qed.
+
+(** a fragmented file, opened, then its tail opened as a fragment against the result; sample ids
+    from 0 to beyond the count *)
+Example C06_nonvacuous_fragment :
+  let d := reader_test_frag_file in
+  let d2 := skipn (N.to_nat (lenN reader_test_frag_head)) reader_test_frag_file in
+  match fst (run (open_fuel 2000 Dbg (lenN d)) (stream_at d 0)) with
+  | Ok r =>
+      match fst (run (open_fragment_fuel 2000 Dbg r (lenN d2)) (stream_at d2 0)) with
+      | Ok r2 =>
+          rd_sample_count r2 1 = Ok 4
+          /\ map (fun sid => class_of (rd_sample_offset Dbg r2 1 sid)) [0; 1; 4; 5] = [CData; COk; COk; CData]
+          /\ map (fun sid => class_of (fst (run (rd_read_sample Dbg r2 1 sid) (stream_at d2 0)))) [0; 1; 4; 5]
+             = [CData; COk; CIo; CData]
+      | _ => False
+      end
+  | _ => False
+  end.
+Proof. vm_compute. repeat split; reflexivity. Qed.
+
+(** ** What is NOT claimed, with witnesses
+
+    A reader value that no parse returns can panic: [reader_ok] is needed for the sample calls
+    ([calls_can_panic_on_inconsistent_reader] in SafeReader.v, a trun whose duration vector is
+    shorter than its sample count; [sample_time_needs_*] in SafeLookup.v). *)
+Example C06_reader_ok_needed :
+  is_panic (fst (run (rd_read_sample Dbg bad_reader 1 2) (stream_at [1; 2; 3] 0))) = true
+  /\ is_panic (fst (run (rd_read_sample Rel bad_reader 1 2) (stream_at [1; 2; 3] 0))) = true.
+Proof. exact calls_can_panic_on_inconsistent_reader. Qed.
+
+(** "with its true length": a declared length of [u64::MAX] on a 24-byte input panics in a debug
+    build ([start + size] in [skip_box]); with the true length 24 it does not *)
+Example C06_true_length_needed :
+  bytes_ok declared_length_witness = true /\ lenN declared_length_witness = 24
+  /\ is_panic (fst (run (open_fuel 10 Dbg (2 ^ 64 - 1)) (stream_at declared_length_witness 0))) = true
+  /\ is_panic (fst (run (open_fuel 10 Dbg 24) (stream_at declared_length_witness 0))) = false
+  /\ is_panic (fst (run (open_fuel 10 Rel (2 ^ 64 - 1)) (stream_at declared_length_witness 0))) = false.
+Proof. exact open_declared_length_above_true_length_can_panic. Qed.
